@@ -45,6 +45,11 @@ def owning_fields(prog, E, prefix="mpq_"):
                 a = args[releasers[g.key]]
                 rel_paths.append((a[0], a[1], a[2] + ("*",)))
         for p in rel_paths:
+            # a local object of the record type released field by field (EGLPNUM_TYPENAME_ILLread_mps_state state; ... free(state.obj))
+            if p[0] == "l" and "*" not in (f.ltypes.get(p[1]) or "*"):
+                fl0 = fields_of(p[2])
+                if fl0:
+                    own[fl0[0].split("::")[0]].add(fl0)
             for (k, steps) in E.roots(f, p):
                 fl = fields_of(steps)
                 if not fl or k >= len(f.params):
